@@ -129,6 +129,28 @@ pub mod channel {
         }
     }
 
+    /// model-only: address of the queue of channel `id` (set at creation), so that a harness
+    /// scheduler can play the receiving side of a channel it has no handle for
+    static mut INNERS: [usize; MAX_CHANNELS] = [0; MAX_CHANNELS];
+
+    /// take the head of channel `id`, as the (single) consumer's `recv` would.  The caller
+    /// names the item type; using it with the wrong type is undefined.
+    pub fn model_take_head<T>(id: usize) -> bool {
+        unsafe {
+            let p = INNERS[id] as *const Inner<T>;
+            if p.is_null() {
+                return false;
+            }
+            match (*p).pop() {
+                Some(v) => {
+                    core::mem::forget(v);
+                    true
+                }
+                None => false,
+            }
+        }
+    }
+
     struct Inner<T> {
         slots: UnsafeCell<[Option<T>; RING]>,
         len: Cell<usize>,
@@ -214,6 +236,9 @@ pub mod channel {
             cap: model_cap,
             id,
         });
+        unsafe {
+            INNERS[id] = Arc::as_ptr(&inner) as usize;
+        }
         (
             Sender {
                 inner: inner.clone(),
